@@ -230,6 +230,8 @@ class FeatureEdgeDetector(Worker):
         if self.flag_corners:
             self.log("Flag corners")
             self._flag_corners(mesh)
+        else:
+            self.corners = None
 
         if self.compute_feature_graph:
             self.log("Compute feature graph")
